@@ -50,7 +50,7 @@ MANIFEST = {
 PROPS = {
     "C03": ["NotAhead", "BelongsToBlock", "AppendOnlySuccessor", "EqualsHardcoded",
             "DisputeCommitsHonest", "HonestNotBanned", "HonestNotBannedInFetch", "LiarsBanned",
-            "SelfContradictingLiarBanned"],
+            "SelfContradictingLiarBanned", "BlockProvenLiarBanned"],
     # judged only on the CFRace slice, on behalf of the BlockManager family (run_race)
     "C19": ["EventsFollowChainOrder"],
 }
@@ -74,7 +74,7 @@ ASSUMPTIONS = [
     "one real height of that segment; only heights 1000j and 1000j+e occur as chain tips",
 ]
 
-LIARS = ["CP", "CX", "PV", "OM", "OU", "NH", "NS", "EX", "HC", "FO", "SH", "SF"]
+LIARS = ["CP", "CX", "PV", "OM", "OU", "OE", "NH", "NS", "EX", "OI", "HC", "FO", "SH", "SF"]
 
 
 def scen_tla(asg, bt, ft, hard):
@@ -105,6 +105,9 @@ def core_scenarios(maxh):
         ([H, ("OM", 3), ("SH", 2)], maxh, 0, 0),  # a shorter (correct) checkpoint list; the lie lies beyond its end
         ([H, ("OM", 2), H], 4, 0, 0),           # dispute with the tip exactly 2000 above its start: request = cap
         ([T, ("SF", 0), T], 1, 1, 0),           # at the tip only a peer whose cfheaders answer is too short answers
+        ([H, ("OI", 3), ("OM", 3)], maxh, 1, 0),  # a filter omitting a SPENT script (not provable) next to a provable lie
+        ([H, ("OE", 3), T], maxh, 1, 0),        # the EMPTY filter, advertised consistently: one honest against one liar
+        ([H, ("OE", 2), ("OM", 2)], 3, 1, 0),   # empty filter and a filter omitting one script at one height
     ]
     return S
 
@@ -121,6 +124,8 @@ def sample_scenarios(rng, n, maxh, np_):
                 asg.append(("T", 0))
             else:
                 asg.append((rng.choice(LIARS), rng.randint(1, maxh)))
+        if len([a for a in asg if a[0] == "OE"]) != len({a[1] for a in asg if a[0] == "OE"}):
+            continue  # two empty-filter liars at one height advertise the SAME false value (collusion: not modelled)
         rng.shuffle(asg)
         bt = rng.choice([maxh, maxh, maxh - 1, maxh - 2, rng.randint(1, maxh)])
         ft = rng.randint(0, min(bt, 3))
